@@ -744,7 +744,13 @@ func popFrame(c *cont) *cont {
 // inline replaces a call node by the callee's grammar (static callees with a body in the module).
 func (m *Matcher) inline(call *Call, c *cont, fr *frame) *cont {
 	if call.Iface {
-		return nil
+		// an interface method on a parameter that the (inlined) caller bound to a value of concrete
+		// static type: WriteValue(out, m) with m *MapValue makes val.Write(out) MapValue's Write
+		if dc := m.devirtualise(call, fr); dc != nil {
+			call = dc
+		} else {
+			return nil
+		}
 	}
 	fi := m.X.P.FuncOf(call.Callee)
 	if fi == nil || fi.Decl.Body == nil {
@@ -964,6 +970,13 @@ func (m *Matcher) wlabelOf(fr *frame, p *Prim) string {
 
 func (m *Matcher) matchPrim(st *state, wp, rp *Prim, wc, rc *cont) bool {
 	wfr, rfr := wc.fr, rc.fr
+	if wp.Const == nil && wp.Arg != nil {
+		if cv := m.dynConst(wfr, wp.Arg); cv != nil {
+			cp := *wp
+			cp.Const = cv
+			wp = &cp
+		}
+	}
 	wk, rk := wp.Kind, rp.Kind
 	wlabel := m.wlabelOf(wfr, wp)
 	rlabel := m.relabel(rfr, rp.Label)
@@ -2606,4 +2619,82 @@ func (m *Matcher) unroll(l *Loop, c *cont, fr *frame) *cont {
 		next = mkCont(l.Body, 0, next, nfr, false)
 	}
 	return next
+}
+
+func (m *Matcher) devirtualise(call *Call, fr *frame) *Call {
+	sel, ok := call.Expr.Fun.(*ast.SelectorExpr)
+	if !ok || fr.parent == nil {
+		return nil
+	}
+	id, ok := ast.Unparen(sel.X).(*ast.Ident)
+	if !ok {
+		return nil
+	}
+	arg, ok := fr.args[fr.ctx.Info.ObjectOf(id)]
+	if !ok {
+		return nil
+	}
+	t := fr.parent.ctx.Info.TypeOf(arg)
+	if t == nil {
+		return nil
+	}
+	if _, isIface := t.Underlying().(*types.Interface); isIface {
+		return nil
+	}
+	obj, _, _ := types.LookupFieldOrMethod(t, true, call.Callee.Pkg(), call.Callee.Name())
+	fn, ok := obj.(*types.Func)
+	if !ok {
+		return nil
+	}
+	nc := *call
+	nc.Callee, nc.Iface = fn, false
+	return &nc
+}
+
+// dynConst: the value of p.Getter() written by an inlined helper when p is a parameter the caller
+// bound to a value of concrete static type whose Getter is `return <constant>` (the type tag).
+func (m *Matcher) dynConst(fr *frame, e ast.Expr) constant.Value {
+	if fr == nil || fr.parent == nil {
+		return nil
+	}
+	call, ok := ast.Unparen(stripConv(fr.ctx, e)).(*ast.CallExpr)
+	if !ok || len(call.Args) != 0 {
+		return nil
+	}
+	sel, ok := call.Fun.(*ast.SelectorExpr)
+	if !ok {
+		return nil
+	}
+	id, ok := ast.Unparen(sel.X).(*ast.Ident)
+	if !ok {
+		return nil
+	}
+	arg, ok := fr.args[fr.ctx.Info.ObjectOf(id)]
+	if !ok {
+		return nil
+	}
+	t := fr.parent.ctx.Info.TypeOf(arg)
+	if t == nil {
+		return nil
+	}
+	if _, isIface := t.Underlying().(*types.Interface); isIface {
+		return nil
+	}
+	obj, _, _ := types.LookupFieldOrMethod(t, true, fr.ctx.FI.Obj.Pkg(), sel.Sel.Name)
+	fn, ok := obj.(*types.Func)
+	if !ok {
+		return nil
+	}
+	fi := m.X.P.FuncOf(fn)
+	if fi == nil || fi.Decl.Body == nil || len(fi.Decl.Body.List) != 1 {
+		return nil
+	}
+	ret, ok := fi.Decl.Body.List[0].(*ast.ReturnStmt)
+	if !ok || len(ret.Results) != 1 {
+		return nil
+	}
+	if tv, ok := fi.Pkg.TypesInfo.Types[ret.Results[0]]; ok && tv.Value != nil {
+		return tv.Value
+	}
+	return nil
 }
